@@ -32,6 +32,7 @@ EXEC_STOPS = [
     "weechess_core::state::State::by_performing_moves", "weechess_engine::book::OpeningBook::lookup", "weechess_core::state::State::pretty",
     "weechess_engine::searcher::Searcher::analyze", "<weechess_core::state::State as core::default::Default>::default",
     "weechess_engine::book::OpeningBook::try_default", "<weechess_engine::eval::Evaluator as core::default::Default>::default",
+    "weechess_engine::eval::Evaluator::evaluate",   # static evaluation of a position: its panic sites belong to C04's inventory
 ]
 
 def run(ck):
